@@ -402,8 +402,9 @@ func setExpires(ctx *Context, fact map[string]interface{}) (bool, int64, error) 
 		switch vv := ttl.(type) {
 		case float64: // Only kind of number in Javascript!
 			expires = NowSecs() + int64(vv)
-		case int64:
-			expires = vv
+		case int64: // Rule actions: the Javascript runtime exports integers as int64.
+			// A TTL is relative, whatever the type of the number.
+			expires = NowSecs() + vv
 		case string:
 			d, err := time.ParseDuration(vv)
 			if err != nil {
